@@ -34,10 +34,23 @@ EXTRA = [
 def run(chk: core.Check, tier: str, seed: int) -> None:
     jp = core.import_repo()
     rng = random.Random(seed)
+    # other environments exist, have dropped or replaced built-ins and registered functions of their own:
+    # none of that may change what the default environment (or a fresh one) accepts
+    from .. import probes  # noqa: PLC0415
+
+    class Sparse(jp.JSONPathEnvironment):
+        def setup_function_extensions(self):
+            super().setup_function_extensions()
+            del self.function_extensions["match"]
+            del self.function_extensions["search"]
+
+    keep = [Sparse(), probes.make_env(jp, [("length", ["N"], "L"), ("count", ["V", "V"], "N"), ("value", [], "L")], [])]
     n = 12000 if tier == "quick" else 250000
     cands = list(dict.fromkeys(corpus.SEEDS + EXTRA + corpus.repo_test_queries() + corpus.literal_queries() + corpus.skeletons(rng) + corpus.valid_candidates(rng, n)))
     common.t1_check(chk, [t for t in (corpus.SEEDS + EXTRA + rng.sample(cands, 500 if tier == "quick" else 15000)) if len(t) <= 60], "c03_t1")
-    recs = [impl.rec_compile(jp, q) for q in cands]
+    fresh = jp.JSONPathEnvironment()
+    recs = [impl.rec_compile(jp, q, env=(fresh if k % 7 == 0 else None)) for k, q in enumerate(cands)]
+    del keep
     for r in recs:
         chk.nontrivial.add(tuple(r["q"]))
     chk.sample({"query": core.dec_text(recs[60]["q"]), "compile": recs[60]["out"]})
